@@ -88,7 +88,8 @@ impl UCfg {
 pub enum USpec {
     Get(Option<Tmo>), // None = pool default
     TryGet,
-    Remove(Tmo),
+    /// `None`: `Pool::remove()` (the pool's configured timeout); `Some(t)`: `timeout_remove(t)`
+    Remove(Option<Tmo>),
     TryRemove,
     Add,
     TryAdd,
@@ -104,7 +105,8 @@ impl USpec {
             USpec::Get(None) => "start uget d".into(),
             USpec::Get(Some(t)) => format!("start uget {}", t.ch()),
             USpec::TryGet => "start utryget".into(),
-            USpec::Remove(t) => format!("start uremove {}", t.ch()),
+            USpec::Remove(None) => "start uremove d".into(),
+            USpec::Remove(Some(t)) => format!("start uremove {}", t.ch()),
             USpec::TryRemove => "start utryremove".into(),
             USpec::Add => "start uadd".into(),
             USpec::TryAdd => "start utryadd".into(),
@@ -119,7 +121,8 @@ impl USpec {
             ["uget", "d"] => USpec::Get(None),
             ["uget", t] => USpec::Get(Some(Tmo::parse(t)?)),
             ["utryget"] => USpec::TryGet,
-            ["uremove", t] => USpec::Remove(Tmo::parse(t)?),
+            ["uremove", "d"] => USpec::Remove(None),
+            ["uremove", t] => USpec::Remove(Some(Tmo::parse(t)?)),
             ["utryremove"] => USpec::TryRemove,
             ["uadd"] => USpec::Add,
             ["utryadd"] => USpec::TryAdd,
@@ -226,8 +229,8 @@ impl UWorld {
         if op.susp {
             let mut v = vec![Outcome::Run, Outcome::Cancel];
             let t = match &self.specs[i] {
-                USpec::Get(None) => Some(self.cfg.tmo),
-                USpec::Get(Some(t)) | USpec::Remove(t) => Some(*t),
+                USpec::Get(None) | USpec::Remove(None) => Some(self.cfg.tmo),
+                USpec::Get(Some(t)) | USpec::Remove(Some(t)) => Some(*t),
                 _ => None,
             };
             if t == Some(Tmo::Finite) && self.cfg.rt {
@@ -362,7 +365,10 @@ impl UWorld {
                         }
                         Err(e) => sched.event(format!("result({},{}:-)", i, err_name(&e)).replace("no_runtime:-", "no_runtime")),
                     },
-                    USpec::Remove(t) => match drive!(pool.timeout_remove(t.dur())) {
+                    USpec::Remove(t) => match (match t {
+                        None => drive!(pool.remove()),
+                        Some(t) => drive!(pool.timeout_remove(t.dur())),
+                    }) {
                         Ok(Ok(v)) => {
                             sched.event(format!("result({},ok:{})", i, v.id));
                             give_back(v);
@@ -674,7 +680,13 @@ pub fn gen_trace(seed: u64, profile: &str) -> UTrace {
                     }
                 }
                 1 => USpec::TryGet,
-                2 => USpec::Remove(*rng.pick(&tm)),
+                2 => {
+                    if rng.chance(30) {
+                        USpec::Remove(None)
+                    } else {
+                        USpec::Remove(Some(*rng.pick(&tm)))
+                    }
+                }
                 3 => USpec::TryRemove,
                 4 => USpec::Add,
                 5 => USpec::TryAdd,
